@@ -197,6 +197,24 @@ class C28(Property):
                 exp_sse = c["sse0"] + float(np.mean((np.abs(F0) - D) ** 2)) / denom
                 if not close(sse, exp_sse, rel=1e-9, abs_=1e-12):
                     ctx.violation("fourier-projection-sse", c, {"observed": float(sse), "expected": exp_sse})
+        elif kind == "mixed-projection":
+            from abtem.reconstruct import MixedStatePtychographicOperator as M
+
+            k, (n, m) = c["modes"], c["shape"]
+            psi = rs.normal(size=(k, n, m)) + 1j * rs.normal(size=(k, n, m))
+            D = np.abs(rs.normal(size=(n, m))) * c["scale"]
+            out, sse = M._fourier_projection(psi, D, 0.0)
+            F0, F1 = np.fft.fft2(psi), np.fft.fft2(out)
+            tol = 1e-9 * max(1.0, float(D.max()))
+            total = np.sqrt((np.abs(F1) ** 2).sum(axis=0))
+            if np.abs(total - D).max() > tol:
+                ctx.violation("mixed-projection-total-intensity", c, {"max_abs_diff": float(np.abs(total - D).max())})
+            mask = (np.abs(F0) > 1e-6) & (D[None] > 1e-6 * c["scale"])
+            if mask.any() and np.abs(np.angle(F1[mask] * np.conj(F0[mask]))).max() > 1e-7:
+                ctx.violation("mixed-projection-phase", c, {})
+            out2, _ = M._fourier_projection(out, D, 0.0)
+            if np.abs(out2 - out).max() > tol:
+                ctx.violation("mixed-projection-idempotent", c, {"max_abs_diff": float(np.abs(out2 - out).max())})
         elif kind == "true-solution":
             (sx, sy), (nx, ny) = c["object_shape"], c["probe_shape"]
             obj = np.exp(1j * rs.normal(size=(sx, sy))) * (0.5 + rs.random((sx, sy)))
@@ -282,6 +300,9 @@ class C28(Property):
             out.append(dict(kind="projection", seed=rng.randint(0, 2**31), shape=[rng.randint(1, 9), rng.randint(1, 9)],
                             scale=rng.choice([1.0, 1e-3, 50.0]), zero_fraction=rng.choice([0.0, 0.2, 1.0]), kill=rng.random() < 0.3,
                             sse0=rng.choice([0.0, 0.25])))
+        for _ in range(ctx.n(20, 400)):
+            out.append(dict(kind="mixed-projection", seed=rng.randint(0, 2**31), modes=rng.randint(1, 4), shape=[rng.randint(1, 8), rng.randint(1, 8)],
+                            scale=rng.choice([1.0, 1e-3, 50.0])))
         for k in range(ctx.n(120, 2400)):
             sx, sy = rng.randint(3, 12), rng.randint(3, 12)
             nx, ny = rng.randint(1, sx), rng.randint(1, sy)
